@@ -368,6 +368,9 @@ pub struct C11State {
     pub in_refresh_tick: bool,
     /// per session: header / tx hashes in flight when the session closed
     pub inflight: HashMap<usize, (Vec<Vec<u8>>, Vec<Vec<u8>>)>,
+    /// the delivery under way is the honest answer to the proof request that is outstanding
+    /// for its session: (session, request bytes as the client stores them)
+    pub answers_outstanding: Option<(usize, Vec<u8>)>,
 }
 
 fn c11_edge_ok(from: &str, to: &str) -> bool {
@@ -1088,8 +1091,27 @@ pub fn c11_on_session_closed(ck: &mut Checker, sim: &mut Sim, s: usize, _p: usiz
 }
 
 /// remember what each session has in flight (evaluated when it closes)
-pub fn c11_before(ck: &mut Checker, sim: &mut Sim, _s: usize, _p: Proto, _d: &Bytes, _t: &Tag) {
+pub fn c11_before(ck: &mut Checker, sim: &mut Sim, s: usize, _p: Proto, _d: &Bytes, t: &Tag) {
     c11_note_inflight(ck, sim);
+    ck.c11.answers_outstanding = None;
+    if t.kind == Kind::SendLastStateProof && t.honest && !t.layout.as_ref().map(|l| l.tip_changed).unwrap_or(true) {
+        if let (Some(c), Some(req)) = (sim.client.as_ref(), t.request.as_ref()) {
+            let outstanding = c
+                .peers
+                .get_state(&PeerIndex::new(s))
+                .and_then(|st| st.get_prove_request().map(|r| r.get_content().as_slice().to_vec()));
+            // the server answered exactly the request that is (still) outstanding
+            let answered = packed::LightClientMessageReader::from_compatible_slice(req).ok().and_then(|m| match m.to_enum() {
+                packed::LightClientMessageUnionReader::GetLastStateProof(r) => Some(r.as_slice().to_vec()),
+                _ => None,
+            });
+            if let (Some(o), Some(a)) = (outstanding, answered) {
+                if o == a {
+                    ck.c11.answers_outstanding = Some((s, o));
+                }
+            }
+        }
+    }
 }
 fn c11_note_inflight(ck: &mut Checker, sim: &mut Sim) {
     let c = match sim.client.as_ref() {
@@ -1110,7 +1132,46 @@ fn c11_note_inflight(ck: &mut Checker, sim: &mut Sim) {
         }
     }
 }
-pub fn c11_after(_ck: &mut Checker, _sim: &mut Sim, _s: usize, _p: Proto, _d: &Bytes, _t: &Tag) {}
+/// The honest answer to the outstanding proof request is consumed: afterwards that very
+/// request is not outstanding any more (a new one - the tau re-check - may be).
+pub fn c11_after(ck: &mut Checker, sim: &mut Sim, s: usize, _p: Proto, _d: &Bytes, _t: &Tag) {
+    if let Some((session, req)) = ck.c11.answers_outstanding.take() {
+        if session != s {
+            return;
+        }
+        let c = match sim.client.as_ref() {
+            Some(c) => c,
+            None => return,
+        };
+        let still = c
+            .peers
+            .get_state(&PeerIndex::new(s))
+            .and_then(|st| st.get_prove_request().map(|r| r.get_content().as_slice().to_vec()));
+        let tip_hash = c.storage.get_last_state().1.calc_header_hash();
+        let stored_td = c.storage.get_last_state().0;
+        sim.stat("probe.c11.solicited_proof_delivered");
+        if still.as_ref() == Some(&req) && sim.sessions.contains_key(&s) {
+            // known variant: the sampled answer failed the (probabilistic) tau check, and a new
+            // request cannot be built because another peer has proven this very tip meanwhile
+            let asked_tip = packed::GetLastStateProofReader::from_slice(&req).ok().map(|r| r.last_hash().to_entity());
+            let not_ahead = asked_tip
+                .as_ref()
+                .and_then(|h| sim.world.by_hash.get(h))
+                .map(|id| sim.world.blocks[*id].td <= stored_td)
+                .unwrap_or(false);
+            let clause = if asked_tip.as_ref() == Some(&tip_hash) || not_ahead {
+                "request_left_outstanding_when_the_tip_was_proven_by_another_peer_meanwhile"
+            } else {
+                "solicited_proof_left_the_request_outstanding"
+            };
+            sim.violate(
+                "C11",
+                clause,
+                format!("s{}: the honest answer to the outstanding GetLastStateProof was delivered and the same request is still outstanding", s),
+            );
+        }
+    }
+}
 
 /// (iii) the refresh tick disconnects exactly the peers whose request or last state is older
 /// than the message timeout
